@@ -1,5 +1,5 @@
 (* Correspondence evaluation for the sharded-directory scenarios. *)
-From UV Require Export Hamt.Read Corr.Fp.
+From UV Require Export Hamt.Read Hamt.RefModel Corr.Fp.
 Local Open Scope N_scope.
 
 (* ---- hash bits: both helpers against the implementation, and against each other ---- *)
@@ -23,13 +23,23 @@ Definition to_entry (h : hentry) : entry :=
 Inductive hsrc :=
 | HSharded (fanout : N) (entries : list hentry)    (* BuildUnixFSShardedDirectory *)
 | HAuto (entries : list hentry)                     (* BuildUnixFSDirectory *)
-| HDump (b : blk).                                  (* blocks written by the reference implementation *)
+| HDump (b : blk)                                   (* blocks written by the reference implementation *)
+| HRef (fanout : N) (ops : list (bool * hentry)) (b : blk).   (* boxo NewShard(fanout), a Set (true) / Remove (false) history, Node(): the blocks it wrote *)
+
+Definition to_hop (o : bool * hentry) : hop :=
+  let '(set, h) := o in if set then HSet (to_entry h) else let '(n, hs, _, _, _) := h in HDel n hs.
 
 Definition hsrc_build (s : hsrc) : res (blk * N) :=
   match s with
   | HSharded f es => build_sharded f HashMurmur3 (map to_entry es)
   | HAuto es => build_dir (map to_entry es)
   | HDump b => Ok (b, 0)
+  | HRef f ops b =>
+    (* the model of the reference's Set / Remove must arrive at exactly the blocks boxo wrote *)
+    match ref_build f HashMurmur3 (map to_hop ops) with
+    | Ok (root, _) => if blk_eqb root b then Ok (b, 0) else Panic
+    | _ => Panic
+    end
   end.
 
 Inductive iobs := OYield (k : bytes) (id : N) | OErr (e : err).
@@ -67,7 +77,7 @@ Definition hamt_case_ok (c : hamt_case) : bool :=
   | Ok (root, sz) =>
     match hc_built c with
     | Some o => N.eqb (fp root) (fst o) && N.eqb sz (snd o)
-    | None => match hc_src c with HDump _ => true | _ => false end   (* a builder that failed where the model builds *)
+    | None => match hc_src c with HDump _ | HRef _ _ _ => true | _ => false end   (* a builder that failed where the model builds *)
     end
     &&
     (if is_shard root then
